@@ -1117,7 +1117,7 @@ def _explore_nm(self, tier, seed):
         ex.evaluations += 1
         ex.traces_validated += 1
         ex.failures += fs
-    nch, per = (16, 10) if tier == 'quick' else (32, 24)
+    nch, per = (16, 10) if tier == 'quick' else (32, 16)
     part_ex = Exploration()
     for part in runner.parallel(nm_chunk, [(seed, i, per, tier) for i in range(nch)]):
         part_ex.merge(part)
